@@ -191,6 +191,42 @@ pub struct Rewriter<'a> {
     pub self_err: Option<Vec<(String, syn::Type)>>, // Self::X => type, when a trait impl is made inherent
 }
 
+/// `Some("lit")` (possibly or-ed): the literals
+fn some_lit_str_of_pat(p: &Pat) -> Option<Vec<syn::LitStr>> {
+    match p {
+        Pat::TupleStruct(ts) if ts.path.is_ident("Some") && ts.elems.len() == 1 => lit_str_of_pat(&ts.elems[0]),
+        Pat::Or(o) => {
+            let mut v = Vec::new();
+            for c in o.cases.iter() {
+                v.extend(some_lit_str_of_pat(c)?);
+            }
+            Some(v)
+        }
+        _ => None,
+    }
+}
+
+/// patterns that, as the LAST arm of a match on Option<&str>, catch everything: `_`, `None | Some(_)`
+fn is_option_catch_all(p: &Pat) -> bool {
+    match p {
+        Pat::Wild(_) => true,
+        Pat::Or(o) => {
+            let mut none = false;
+            let mut some_wild = false;
+            for c in o.cases.iter() {
+                match c {
+                    Pat::Ident(pi) if pi.ident == "None" => none = true,
+                    Pat::Path(pp) if pp.path.is_ident("None") => none = true,
+                    Pat::TupleStruct(ts) if ts.path.is_ident("Some") && ts.elems.len() == 1 && matches!(ts.elems[0], Pat::Wild(_)) => some_wild = true,
+                    _ => return false,
+                }
+            }
+            none && some_wild
+        }
+        _ => false,
+    }
+}
+
 fn lit_str_of_pat(p: &Pat) -> Option<Vec<syn::LitStr>> {
     match p {
         Pat::Lit(l) => match &l.lit {
@@ -335,10 +371,58 @@ impl<'a> Rewriter<'a> {
         Some(parse_quote!({ #(#calls?;)* #last }))
     }
 
+    /// format!("a{}b", x) in a value position => { let mut s = String::new(); s.push_str("a"); s.push_str(vx_to_string(&x).as_str()); ..; s }
+    fn expand_format_value(&mut self, mac: &syn::Macro) -> Option<Expr> {
+        let args: syn::punctuated::Punctuated<Expr, syn::Token![,]> =
+            mac.parse_body_with(syn::punctuated::Punctuated::parse_terminated).ok()?;
+        let mut it = args.into_iter();
+        let fmt = match it.next() {
+            Some(Expr::Lit(syn::ExprLit { lit: syn::Lit::Str(s), .. })) => s.value(),
+            _ => return None,
+        };
+        let rest: Vec<Expr> = it.collect();
+        let pieces = parse_fmt(&fmt)?;
+        let mut stmts: Vec<Stmt> = Vec::new();
+        let mut pos = 0;
+        for p in pieces {
+            match p {
+                Piece::Lit(l) => {
+                    let ls = syn::LitStr::new(&l, Span::call_site());
+                    stmts.push(parse_quote!(__s.push_str(#ls);));
+                }
+                Piece::Display(n) => {
+                    let arg: Expr = match n {
+                        Some(name) => {
+                            let id = syn::Ident::new(&name, Span::call_site());
+                            parse_quote!(#id)
+                        }
+                        None => {
+                            let a = rest.get(pos)?.clone();
+                            pos += 1;
+                            a
+                        }
+                    };
+                    stmts.push(parse_quote!(__s.push_str(vx_to_string(&#arg).as_str());));
+                }
+                Piece::Debug(_) => return None,
+            }
+        }
+        if pos != rest.len() {
+            return None;
+        }
+        fire(self.fired, "R-fmt-value");
+        Some(parse_quote!({ let mut __s = String::new(); #(#stmts)* __s }))
+    }
+
     fn rewrite_macro_expr(&mut self, mac: &syn::Macro) -> Option<Expr> {
         let name = mac.path.segments.last().map(|s| s.ident.to_string()).unwrap_or_default();
         match name.as_str() {
             "format" => {
+                if self.cfg.format_value {
+                    if let Some(e) = self.expand_format_value(mac) {
+                        return Some(e);
+                    }
+                }
                 fire(self.fired, "R-fmt-opaque");
                 Some(parse_quote!(vx_opaque_string()))
             }
@@ -381,8 +465,38 @@ impl<'a> Rewriter<'a> {
         }
     }
 
+    /// R-strmatch on `Option<&str>`: arms `Some("lit") => X` ... last arm `_` or `None | Some(_)`
+    fn rewrite_opt_str_match(&mut self, m: &syn::ExprMatch) -> Option<Expr> {
+        let n = m.arms.len();
+        if n < 2 || !is_option_catch_all(&m.arms[n - 1].pat) || m.arms[n - 1].guard.is_some() {
+            return None;
+        }
+        let scrut = &m.expr;
+        let tmp = self.fresh("m");
+        let last = &m.arms[n - 1].body;
+        let mut acc: Expr = parse_quote!({ #last });
+        for arm in m.arms[..n - 1].iter().rev() {
+            let lits = some_lit_str_of_pat(&arm.pat)?;
+            if arm.guard.is_some() {
+                return None;
+            }
+            let body = &arm.body;
+            let l0 = &lits[0];
+            let mut cond: Expr = parse_quote!(#tmp == Some(#l0));
+            for l in lits.iter().skip(1) {
+                cond = parse_quote!(#cond || #tmp == Some(#l));
+            }
+            acc = parse_quote!(if #cond { #body } else #acc);
+        }
+        fire(self.fired, "R-strmatch-option");
+        Some(parse_quote!(match #scrut { #tmp => #acc }))
+    }
+
     /// R-strmatch
     fn rewrite_str_match(&mut self, m: &syn::ExprMatch) -> Option<Expr> {
+        if m.arms.iter().any(|a| some_lit_str_of_pat(&a.pat).is_some()) {
+            return self.rewrite_opt_str_match(m);
+        }
         if !m.arms.iter().any(|a| lit_str_of_pat(&a.pat).is_some()) {
             return None;
         }
@@ -585,6 +699,24 @@ impl<'a> VisitMut for Rewriter<'a> {
             }
             if let Some(n) = rep {
                 fire(self.fired, "R-iter");
+                *e = n;
+            }
+        }
+        // R-stradd: `E + "lit"` => vx_string_add(E, "lit")  (only String + &str type-checks with a literal on the right;
+        // Verus 0.2026.09 has an internal error on the Add impl)
+        {
+            let mut rep: Option<Expr> = None;
+            if let Expr::Binary(b) = e {
+                if matches!(b.op, syn::BinOp::Add(_)) {
+                    if let Expr::Lit(syn::ExprLit { lit: syn::Lit::Str(_), .. }) = &*b.right {
+                        let l = &b.left;
+                        let r = &b.right;
+                        rep = Some(parse_quote!(vx_string_add(#l, #r)));
+                    }
+                }
+            }
+            if let Some(n) = rep {
+                fire(self.fired, "R-stradd");
                 *e = n;
             }
         }
